@@ -353,7 +353,7 @@ def main(argv=None) -> int:
     # ---- evidence
     checks = [(c, r) for c, r in zip(spec.cubes, results) if c.role == "check" and not r.get("error")]
     total_paths = sum(r["paths"] for _, r in checks)
-    reached = sum(r["held"] + len(r["violations"]) for _, r in checks)
+    reached = sum(r["held"] + r.get("violating_paths", len(r["violations"])) for _, r in checks)
     samples = []
     for c, r in checks:
         for s in r["samples"][:2]:
